@@ -436,6 +436,8 @@ def run(prog, rep, tier):
     rep.rule('LOOP-stale-read', 'no per-item variable is read in a loop before the iteration assigns '
              'it when its only other bindings are inside other loops')
     check_stale_loop_reads(prog, rep, ['tenpy/networks/mpo.py'])
+    rep.rule('PERM-both-legs', 'from_Wflat permutes both physical legs of the W tensors')
+    check_perm_both_legs(prog, rep)
     return rep.finish(
         level='other',
         explanation='Flag exhaustiveness over %d W-using MPO methods, flag forwarding of derived '
@@ -826,4 +828,38 @@ def check_overlap_table(prog, rep):
                       'overlap is anti-linear in self: the hc term enters unconjugated in the first '
                       'case and conjugated in the second; <A|B> == conj(<B|A>) fails otherwise'
                       % (so, os_), chain.lineno)
+    return 1
+
+
+# ------------------------------------------------------------------ PERM-both-legs
+def check_perm_both_legs(prog, rep):
+    """PERM-both-legs: an operator tensor has TWO physical legs ('p' and 'p*'); bringing it from
+    the standard local basis into the (charge-sorted) basis of the site permutes both with
+    `site.perm`. In MPO.from_Wflat the positions of the leading array axes that are indexed with
+    `site.perm` are {0, 1} (chained subscripts or np.ix_(perm, perm))."""
+    m = prog.module('tenpy/networks/mpo.py')
+    f = m.func('MPO.from_Wflat')
+    axes = set()
+    for st in stmts_of(f):
+        if not (isinstance(st, ast.Assign) and 'site.perm' in unparse(st.value)):
+            continue
+        e = st.value
+        # unwind chained subscripts from the outside
+        while isinstance(e, ast.Subscript):
+            idx = e.slice.elts if isinstance(e.slice, ast.Tuple) else [e.slice]
+            if len(idx) == 1 and isinstance(idx[0], ast.Call) and unparse(idx[0].func) == 'np.ix_':
+                idx = idx[0].args
+            for k, x in enumerate(idx):
+                if unparse(x) == 'site.perm':
+                    axes.add(k)
+            e = e.value
+    rep.instance('PERM-both-legs', {'function': 'MPO.from_Wflat', 'axes_permuted': sorted(axes)})
+    if axes and axes != {0, 1}:
+        rep.violation('PERM-both-legs', m, 'MPO.from_Wflat', 'one-physical-leg',
+                      'the W tensors are permuted with site.perm on the axes %s only; an operator '
+                      'has the two physical legs p (axis 0) and p* (axis 1): with a re-ordered '
+                      'local basis the operator is put into the wrong charge sectors' % sorted(axes),
+                      f.lineno)
+    if not axes:
+        raise AnalysisError('PERM-both-legs: permutation of the W tensors in from_Wflat not found')
     return 1
